@@ -1009,6 +1009,15 @@ func injectClash(r *Rng, c Case) {
 			if pn == nil {
 				continue
 			}
+			inA2 := false
+			for _, a := range carr(c, "a2names") {
+				if a.(string) == cstr(bn, "n") {
+					inA2 = true // nodes of module a2: what is added here would belong to m in one module and to a2 in the other
+				}
+			}
+			if inA2 {
+				continue
+			}
 			places = append(places, place{bn, pn})
 			walk(carr(bn, "kids"), carr(pn, "kids"))
 		}
@@ -1036,8 +1045,21 @@ func injectClash(r *Rng, c Case) {
 	if victim == nil {
 		return
 	}
+	for _, a := range carr(c, "a2names") {
+		if a.(string) == cstr(victim, "n") {
+			return // the module of a node is looked up by its name: no second node of the name of one that a2 adds
+		}
+	}
 	var dup map[string]any
-	if cstr(victim, "k") == "choice" {
+	mixed := r.Chance(35) && cstr(pl.b, "k") == "container" // (in a list the name could be that of the key)
+	if mixed && cstr(victim, "k") == "choice" {
+		// a data node of the name of a choice: one namespace by RFC 6020 6.2.1 (the code keeps the two apart)
+		dup = map[string]any{"k": "leaf", "n": cstr(victim, "n"), "type": map[string]any{"base": "string"}}
+	} else if mixed {
+		dup = map[string]any{"k": "choice", "n": cstr(victim, "n"), "kids": []any{
+			map[string]any{"k": "case", "n": "cazz", "kids": []any{
+				map[string]any{"k": "leaf", "n": "fzz", "type": map[string]any{"base": "string"}}}}}}
+	} else if cstr(victim, "k") == "choice" {
 		dup = map[string]any{"k": "choice", "n": cstr(victim, "n"), "kids": []any{
 			map[string]any{"k": "case", "n": "cazz", "kids": []any{
 				map[string]any{"k": "leaf", "n": "fzz", "type": map[string]any{"base": "string"}}}}}}
@@ -1048,6 +1070,9 @@ func injectClash(r *Rng, c Case) {
 	pl.b["kids"] = append(carr(pl.b, "kids"), map[string]any{"k": "uses", "n": "uses-gclash", "g": "gclash"})
 	pl.p["kids"] = append(carr(pl.p, "kids"), deepCopy(dup))
 	c["clash"] = cstr(victim, "k")
+	if mixed {
+		c["clash"] = "mixed"
+	}
 }
 
 func genYUsesCase1(r *Rng, tier string) Case {
